@@ -28,10 +28,12 @@ P = {
             "waits for a gated sink.",
             "Hook oth.post.msg supplies the synchronous twin; Qt's posted-event queue is trusted to be what Qt documents.",
             "drv_conc", "5.3"),
-    "C04": ("exploration", "child process per shutdown path with pipe-recorded accept/deliver events; progress-based hang detector; TSan/ASan cycles",
-            "Each enumerated shutdown path x backlog x sink delay x racing producers runs in a child process that reports accepted and "
-            "delivered ids over a pipe; the parent checks accepted-subset-of-delivered, exactly-once, order and termination with a "
-            "progress-based (not wall-clock) hang detector; move/reset cycles run in-process under TSan and ASan.",
+    "C04": ("exploration", "child process per shutdown path with ticketed accept/deliver/stop events (append-only file, one write(2) each); history checker; progress-based hang detector; TSan/ASan cycles",
+            "Each enumerated shutdown path (aboutToQuit, explicit reset, return without exec, exit(), leaked application, non-singleton "
+            "destruction, move/reset cycles, two concurrent stops) x backlog x sink delay x racing producers x configuration front-end runs "
+            "in a child process that records ticketed events; the parent checks drained-before-the-stop-returns, exactly-once, per-producer "
+            "order, synchronous delivery after the stop and termination with a progress-based (not wall-clock) hang detector; in-process "
+            "paths also run under TSan and ASan. Three open findings are listed in known_findings.json.",
             "Termination is decided as 'exits while watched or stops making progress'; an unbounded liveness claim is out of reach.",
             "drv_app", "5.4"),
     "C05": ("exploration", "offline log-conservation checker over recorded rotation histories (virtual clock, independent gzip reader)",
@@ -57,10 +59,12 @@ P = {
             "Histories mixing day jumps, size rotations, restarts, retention removals, delivery lag and midnight between clock reads; "
             "the checker verifies one day per file, name date = record day, no rotated name reused, indices increasing per date.",
             "Virtual clock via libc interposition; timestamps re-stamped by the driver.", "drv_rot", "5.9"),
-    "C10": ("fault_enumeration", "process kill / errno injection at every intercepted syscall boundary of a rotating write, then restart",
-            "For each scenario the rotating write is repeated with the process killed before every intercepted file syscall (and with "
-            "single errno failures of rename/link/unlink/create); a checker verifies that all records on disk before the write are "
-            "still recoverable from intact files and that a restarted sink continues without destroying them.",
+    "C10": ("fault_enumeration", "process kill / errno injection (single and persisting) at every intercepted syscall boundary of a rotating operation, then restart; strace cross-check",
+            "For each scenario (size/daily/start-up trigger x options x limits x earlier rotations x stray leftovers x real rename "
+            "obstacles) the rotating operation is repeated with the process killed before every intercepted file syscall, with a half "
+            "write + kill at every write, with single errno failures of rename/link/unlink/create and with the same failure persisting; "
+            "a checker that reads the directory itself verifies that all records on disk before are still recoverable from intact files "
+            "(retention may only remove whole oldest files down to its limit) and that a restarted sink continues logging.",
             "Process death, not power loss; syscall interposition completeness is cross-checked against strace.", "drv_rot", "5.10"),
     "C11": ("fault_enumeration", "child process logs then qFatal; parent inspects files after SIGABRT",
             "Child processes configure a synchronous logger in several ways, log n messages of several sizes and raise qFatal from "
@@ -76,9 +80,9 @@ P = {
             "Generated messages/attributes are formatted by the real JsonFormatter; Python's json parser must consume exactly one object, "
             "all built-in fields and custom attributes must be recovered exactly, compact output must contain no line break.",
             "Python json is the reference parser.", "drv_fmt", "5.13"),
-    "C14": ("exploration", "libFuzzer + ASan/UBSan targets for every formatter/filter; hang confirmation by re-run",
-            "Coverage-guided fuzzing (clang libFuzzer, ASan+UBSan) of pattern/func/pretty/json/sentry/category/regexp targets; "
-            "time-outs are re-run on a plain build to separate slow from hung.",
+    "C14": ("exploration", "libFuzzer + ASan/UBSan targets (byte-level and grammar-directed) for every formatter/filter; hang confirmation by re-run",
+            "Coverage-guided fuzzing (clang libFuzzer, ASan+UBSan) of pattern/patgram/func/pretty/json/sentry/catfilter/regexp/filters targets "
+            "from a committed seed corpus; time-outs are re-run alone with a large budget to separate slow from hung.",
             "Field widths above 99999 are out of scope (resource exhaustion as requested).", "fuzz", "5.14"),
     "C15": ("exploration", "differential run against an independent glob reference (+ QLoggingCategory on Qt's subset)",
             "Generated rule lists x categories x types evaluated by the real CategoryFilter and compared with a regex-free reference "
